@@ -235,8 +235,14 @@ fn base_problem(rng: &mut Rng, small: bool) -> (Problem, &'static str) {
     match rng.usize(0, 9) {
         0..=6 => {
             // a third of the feasible problems have loose constraints (slacks of size 10..1000 at the planted point)
+            // one feasible problem in ten is a symmetric-cone problem with equality rows and loose inequalities: the
+            // class that takes the KKT-based initialisation and finds its starting slacks already well inside
+            let sym_loose = rng.bool(0.1);
+            if sym_loose {
+                o.kinds = vec!["NN", "SOC", "Zero", "Zero", "NN"];
+            }
             let mut pl = gen::planted_wellposed(rng, &o);
-            if rng.bool(0.35) {
+            if sym_loose || rng.bool(0.35) {
                 crate::c01::loosen(&mut pl, rng);
             }
             // a slice with extra rows  a_i.x <= b_i  in a nonnegative cone of their own appended to the list, some
